@@ -483,10 +483,39 @@ AddPH(x, m) ==
 
 \* one complete HandleProposedHeader call (the addPHRequests hand-off included)
 RECURSIVE HandlePH(_, _, _)
+\* The two phases of HandleProposedHeader.  Phase 1 [PHCheckRequest]: the kernel classifies the header against its views
+\* and answers with what the caller needs (already stored?, proposer key, previous validator set and block hash): PHSnap.
+\* Phase 2: hash, signature and previous-commit-proof validation on the caller's goroutine against that ANSWER, then a
+\* fire-and-forget add request that the kernel applies to whatever its views are by then (AddPH looks the view up again).
+PHSnap(k, m) ==
+  LET chk == PHCheck(k, m)
+  IN [chk |-> chk, view |-> IF chk.status = "Check" THEN GetView(k, chk.slot) ELSE ZeroView, ch |-> k.ch]
+
+HandlePHFrom(x, m, snap) ==
+  LET chk == snap.chk
+      H == HDR[m.hdr]
+      view == snap.view
+      have == PHKey(m) \in view.phs
+      pos == PosOfKey(view.vs, m.prop)
+      isInit == H.h = InitH
+      prevVS == IF isInit THEN "none" ELSE IF chk.slot = "C" THEN "none" ELSE HDR[snap.ch].vs
+  IN IF have THEN [x EXCEPT !.res = "AlreadyStored"]
+     ELSE IF pos = 0 THEN [x EXCEPT !.res = "SignerUnrecognized"]
+     ELSE IF ~m.hashOK THEN [x EXCEPT !.res = "BadBlockHash"]
+     ELSE IF m.sig # "ok" THEN [x EXCEPT !.res = "BadSignature"]
+     ELSE IF H.pcpPkh # prevVS THEN [x EXCEPT !.res = "BadPrevCommitProofPubKeyHash"]
+     \* the header must extend the committing header (checkResp.PrevBlockHash)
+     ELSE IF ~isInit /\ H.prev # (IF chk.slot = "C" THEN HDR[snap.ch].prev ELSE snap.ch) THEN [x EXCEPT !.res = "BadPrevCommitVoteCount"]
+     ELSE LET pc == IF isInit THEN "ok" ELSE PCPCheck(m.hdr, prevVS)
+          IN IF pc = "PANIC" THEN Panic(x, "index out of range in MergeSparse (key id shorter than 2 bytes)")
+             ELSE IF pc # "ok" THEN [x EXCEPT !.res = pc]
+             ELSE [AddPH(x, m) EXCEPT !.res = "Accepted"]
+
 HandlePH(x, m, fuel) ==
   IF m.prop = 0 THEN [x EXCEPT !.res = "MissingProposerPubKey"]
   ELSE
-  LET chk == PHCheck(x.k, m)
+  LET snap == PHSnap(x.k, m)
+      chk == snap.chk
       H == HDR[m.hdr]
   IN IF chk.status = "PANIC" THEN Panic(x, "TODO: handle proposed block with round beyond committing/voting round")
      ELSE IF chk.status = "RoundTooOld" THEN [x EXCEPT !.res = "RoundTooOld"]
@@ -498,23 +527,7 @@ HandlePH(x, m, fuel) ==
             x1 == HandleVote(x, "precommit", pmsg)
         IN IF ~OKx(x1) THEN x1
            ELSE HandlePH([x1 EXCEPT !.res = NULL], m, 0)
-     ELSE
-      LET view == GetView(x.k, chk.slot)
-          have == PHKey(m) \in view.phs
-          pos == PosOfKey(view.vs, m.prop)
-          isInit == H.h = InitH
-          prevVS == IF isInit THEN "none" ELSE IF chk.slot = "C" THEN "none" ELSE HDR[x.k.ch].vs
-      IN IF have THEN [x EXCEPT !.res = "AlreadyStored"]
-         ELSE IF pos = 0 THEN [x EXCEPT !.res = "SignerUnrecognized"]
-         ELSE IF ~m.hashOK THEN [x EXCEPT !.res = "BadBlockHash"]
-         ELSE IF m.sig # "ok" THEN [x EXCEPT !.res = "BadSignature"]
-         ELSE IF H.pcpPkh # prevVS THEN [x EXCEPT !.res = "BadPrevCommitProofPubKeyHash"]
-         \* the header must extend the committing header (checkResp.PrevBlockHash)
-         ELSE IF ~isInit /\ H.prev # (IF chk.slot = "C" THEN HDR[x.k.ch].prev ELSE x.k.ch) THEN [x EXCEPT !.res = "BadPrevCommitVoteCount"]
-         ELSE LET pc == IF isInit THEN "ok" ELSE PCPCheck(m.hdr, prevVS)
-              IN IF pc = "PANIC" THEN Panic(x, "index out of range in MergeSparse (key id shorter than 2 bytes)")
-                 ELSE IF pc # "ok" THEN [x EXCEPT !.res = pc]
-                 ELSE [AddPH(x, m) EXCEPT !.res = "Accepted"]
+     ELSE HandlePHFrom(x, m, snap)
 
 -----------------------------------------------------------------------------
 (* ---- replayed headers [Kernel.handleReplayedHeader] ---------------------- *)
